@@ -650,7 +650,10 @@ int main(int argc, char** argv) {
     AddSuffix(TargName, STRINGSIZE, BinSuffix);
 
     MaxGran = 1;
-    if ((StartAuto) || (StopAuto)) {
+    {
+        /* the files are measured even for an explicit range: the image size
+           depends on their granularity */
+
         if (StartAuto) {
             StartAdr = 0xfffffffful;
         }
@@ -672,7 +675,7 @@ int main(int argc, char** argv) {
             ChkIO(OutName);
             exit(1);
         }
-        if (!QuietMode) {
+        if (!QuietMode && (StartAuto || StopAuto)) {
             printf("%s: 0x%08lX-", getmessage(Num_InfoMessDeducedRange),
                    LoDWord(StartAdr));
             printf("0x%08lX\n", LoDWord(StopAdr));
